@@ -34,7 +34,7 @@ def scripts(rnd, ntables, types):
                     if n > 0 and rnd.random() < 0.4:
                         ops.append('foreach %d %d %d %s' % (addr, n, len(s), ' '.join(map(str, s))))
         rnd.shuffle(ops)
-        yield sc + ops
+        yield rebased(sc + ops, rnd)
 
 
 def run(tier):
